@@ -15,6 +15,6 @@ for d in sorted(glob.glob(os.path.join(HERE, "seeded", "*", "meta.json"))):
 table = "\n".join(rows)
 p = os.path.join(HERE, "DESIGN.md")
 s = open(p).read()
-s = re.sub(r"<!-- SEEDED -->.*?<!-- /SEEDED -->", "<!-- SEEDED -->\n" + table + "\n<!-- /SEEDED -->", s, flags=re.S)
+s = re.sub(r"<!-- SEEDED -->.*?<!-- /SEEDED -->", lambda _m: "<!-- SEEDED -->\n" + table + "\n<!-- /SEEDED -->", s, flags=re.S)
 open(p, "w").write(s)
 print(len(rows) - 2, "seeded rows")
